@@ -539,3 +539,50 @@ func cloneSpecWithSameType(rt *rapid.T, v *spec.Value) *spec.Value {
 	}
 	return &c
 }
+
+// specData builds a data spec from plain Go values (bool, string, int, float64,
+// []string, []int, nil), keys in sorted order.
+func specData(m map[string]any) *spec.Data {
+	d := &spec.Data{}
+	keys := make([]string, 0, len(m))
+	for k := range m {
+		keys = append(keys, k)
+	}
+	sortStrings(keys)
+	for _, k := range keys {
+		d.Add(k, specOf(m[k]))
+	}
+	return d
+}
+
+func specOf(v any) *spec.Value {
+	switch x := v.(type) {
+	case nil:
+		return spec.NilAny()
+	case bool:
+		return spec.Bool(x)
+	case string:
+		return spec.String(x)
+	case int:
+		return spec.IntOf(spec.TInt, int64(x))
+	case int64:
+		return spec.IntOf(spec.TInt64, x)
+	case float64:
+		return spec.Float64(x)
+	case []string:
+		items := make([]*spec.Value, len(x))
+		for i, s := range x {
+			items[i] = spec.String(s)
+		}
+		return spec.Slice(spec.T(spec.TString), items...)
+	case []int:
+		items := make([]*spec.Value, len(x))
+		for i, s := range x {
+			items[i] = spec.IntOf(spec.TInt, int64(s))
+		}
+		return spec.Slice(spec.T(spec.TInt), items...)
+	case *spec.Value:
+		return x
+	}
+	panic(fmt.Sprintf("specOf: unsupported %T", v))
+}
